@@ -744,6 +744,6 @@ func init() {
 		Run:            c12Run,
 		Replay:         c12Replay,
 		QuickBudget:    150 * time.Second,
-		ThoroughBudget: 15 * time.Minute,
+		ThoroughBudget: 8 * time.Minute,
 	})
 }
